@@ -133,18 +133,19 @@ func CommentState(l *lexer) stateFn {
 			}
 		}
 	} else {
-		//start with /*
+		//start with /*: skip the opener, then scan for the first */
+		l.next()
+		l.next()
 		for {
 			r := l.next()
-			if r == '*' {
-				r = l.next()
-				if r == '/' {
-					l.ignore()
-					break
-				}
-			}
 			if r == eof {
 				l.error("comment do not has */")
+				return nil
+			}
+			if r == '*' && l.peek() == '/' {
+				l.next()
+				l.ignore()
+				break
 			}
 			l.ignore()
 		}
